@@ -38,9 +38,9 @@ theorem unguarded_negative_transfer_mints :
 /-- `add_guarded`, EVM side: `vm.CanTransfer` refuses every negative amount, so a negative `transferValue`
     reaches neither `SubBalance` nor `AddBalance`: the top-level call/create returns failure with the state
     untouched. -/
-theorem add_guarded_contract (code : Code) (fuel : Nat) (origin addr : Addr) (v : Int) (init : Script) (s : St)
+theorem add_guarded_contract (code : Code) (jr : Bool) (fuel : Nat) (origin addr : Addr) (v : Int) (init : Script) (s : St)
     (h : v < 0) :
-    evmCallTop code fuel origin addr v s = (s, false) ∧ evmCreateTop code fuel origin v init s = (s, false) := by
+    evmCallTop code jr fuel origin addr v s = (s, false) ∧ evmCreateTop code jr fuel origin v init s = (s, false) := by
   have hc : canTransfer s.bal origin v = false := canTransfer_neg _ _ _ h
   have hv : (v != 0) = true := by
     have : v ≠ 0 := by omega
@@ -76,67 +76,79 @@ theorem add_guarded_transfer_string (b : Bal) (src tgt : Addr) (s : String)
 
 example : strToBigInt "-0.5" = .val (-500000000000000000) ∧ strToBigInt "1e" = .err := by decide +kernel
 
-/-- `add_guarded` for the real parser, contract side: a contract transaction (create, call or jsonrpc; any program,
-    any gas oracle) whose `transferValue` string parses to a negative number never succeeds. Together with
-    `failed_tx_only_gas` it then moves nothing but fees. -/
+/-- `add_guarded` for the real parser, contract side, under **every** fork configuration: a contract transaction
+    (create, call or jsonrpc; any program, any gas oracle) whose `transferValue` string parses to a negative number
+    never succeeds. -/
 theorem add_guarded_contract_string (fuel : Nat) (w : World) (t : ContractTx) (v : Int)
     (h : strToBigInt t.value = .val v) (hv : v < 0) :
     (execTx fuel w (.contract t)).2 ≠ .success := by
-  simp only [execTx]
-  cases hcb : contractBefore w.st.bal t with
-  | inl p =>
-    obtain ⟨status, b⟩ := p
+  -- what BeforeExecute can answer
+  have before : (∀ st b, contractBefore w.fl w.st.bal t = .inl (st, b) → st ≠ .success) ∧
+      (∀ b1 raw v', contractBefore w.fl w.st.bal t = .inr (b1, raw, v') → v' = v) := by
+    unfold contractBefore
     simp only
-    intro hs
-    subst hs
-    -- BeforeExecute never answers success by itself
-    unfold contractBefore at hcb
-    split at hcb
-    · cases hcb
-    · cases hf : processFee w.st.bal t.src with
-      | none => rw [hf] at hcb; simp only at hcb; split at hcb <;> cases hcb
-      | some b1 =>
-        rw [hf] at hcb
-        simp only at hcb
-        split at hcb
-        · cases hcb
-        · cases hg : parseGasLimit t.gasLimit with
-          | none => rw [hg] at hcb; cases hcb
-          | some raw =>
-            rw [hg, h] at hcb
-            simp only at hcb
-            split at hcb <;> cases hcb
-  | inr p =>
-    obtain ⟨b1, raw, v'⟩ := p
-    have hv' : v' = v := by
-      unfold contractBefore at hcb
+    rw [h]
+    constructor
+    · intro st b hcb
+      split at hcb
+      · injection hcb with hcb; injection hcb with h1 _; subst h1; split <;> (intro hh; cases hh)
+      · cases hp : processFeeWith (txFeeOf w.fl) w.st.bal t.src with
+        | none => rw [hp] at hcb; injection hcb with hcb; injection hcb with h1 _; subst h1; split <;> (intro hh; cases hh)
+        | some b1 =>
+          rw [hp] at hcb
+          simp only at hcb
+          split at hcb
+          · injection hcb with hcb; injection hcb with h1 _; subst h1; intro hh; cases hh
+          · cases hg : parseGasLimit w.fl t.gasLimit with
+            | none => rw [hg] at hcb; injection hcb with hcb; injection hcb with h1 _; subst h1; intro hh; cases hh
+            | some raw =>
+              rw [hg] at hcb
+              simp only at hcb
+              split at hcb
+              · injection hcb with hcb; injection hcb with h1 _; subst h1; intro hh; cases hh
+              · cases hcb
+    · intro b1 raw v' hcb
       split at hcb
       · cases hcb
-      · cases hf : processFee w.st.bal t.src with
-        | none => rw [hf] at hcb; simp only at hcb; cases hcb
+      · cases hp : processFeeWith (txFeeOf w.fl) w.st.bal t.src with
+        | none => rw [hp] at hcb; cases hcb
         | some b1' =>
-          rw [hf] at hcb
+          rw [hp] at hcb
           simp only at hcb
           split at hcb
           · cases hcb
-          · cases hg : parseGasLimit t.gasLimit with
+          · cases hg : parseGasLimit w.fl t.gasLimit with
             | none => rw [hg] at hcb; cases hcb
             | some raw' =>
-              rw [hg, h] at hcb
+              rw [hg] at hcb
               simp only at hcb
               split at hcb
               · cases hcb
               · injection hcb with hcb; injection hcb with _ hcb; injection hcb with _ hcb; exact hcb.symm
+  simp only [execTx]
+  cases hcb : contractBefore w.fl w.st.bal t with
+  | inl p =>
+    obtain ⟨status, b⟩ := p
+    exact before.1 status b hcb
+  | inr p =>
+    obtain ⟨b1, raw, v'⟩ := p
+    have hv' := before.2 b1 raw v' hcb
     subst hv'
-    simp only
-    have hfalse : (contractExecute w.code fuel t raw v' { w.st with bal := b1 }).2.1 = false := by
+    try simp only
+    have hfalse : (contractExecute w.fl w.code fuel t raw v' { w.st with bal := b1 }).2.1 = false := by
       unfold contractExecute
       simp only
       split
       · rfl
       · cases ht : t.target with
-        | none => simp only; rw [(add_guarded_contract w.code fuel t.src 0 v' t.init _ hv).2]
-        | some a => simp only; rw [(add_guarded_contract w.code fuel t.src a v' t.init _ hv).1]
+        | none =>
+          simp only
+          rw [(add_guarded_contract w.code w.fl.p002 fuel t.src 0 v' t.init _ hv).2]
+          split <;> rfl
+        | some a =>
+          simp only
+          rw [(add_guarded_contract w.code w.fl.p002 fuel t.src a v' t.init _ hv).1]
+          split <;> rfl
     rw [hfalse]
     simp
 
@@ -195,14 +207,14 @@ def wealth (s : St) : Nat := total s.bal + s.burned + stakeSum s.reg + escrowTot
 /-- **frames_conserve**, full statement: no EVM program changes the wealth. -/
 def FullStatementFramesConserve : Prop :=
   ∀ (code : Code) (origin : Addr) (fuel : Nat) (self : Addr) (ro : Bool) (sc : Script) (s : St),
-    wealth (exec code origin fuel self ro sc s).1 = wealth s
+    wealth (exec code origin true fuel self ro sc s).1 = wealth s
 
 /-- What holds of model and code: the EVM frame skeleton — any program of CALL / CALLCODE / DELEGATECALL /
     STATICCALL / CREATE(2) / SELFDESTRUCT / AUTHCALL / STAKE / UNSTAKE / UNSTAKEALL / REVERT / INVALID / STOP, any
     nesting, any gas bound `fuel`, static or not, failed frames reverted — changes the wealth only by what the ghost
     counter `excess` records: the wei UNSTAKE escrows for refund beyond the stake it removes. -/
 theorem frames_conserve_partial (code : Code) (origin : Addr) (fuel : Nat) (self : Addr) (ro : Bool) (sc : Script) (s : St) :
-    wealth (exec code origin fuel self ro sc s).1 + s.excess = wealth s + (exec code origin fuel self ro sc s).1.excess := by
+    wealth (exec code origin true fuel self ro sc s).1 + s.excess = wealth s + (exec code origin true fuel self ro sc s).1.excess := by
   have h := exec_mass code origin fuel self ro sc s
   unfold mass at h
   unfold wealth
@@ -248,9 +260,34 @@ theorem stake_exact (s : St) (self : Addr) (v : Nat) :
   rw [hbu, e1, e2] at h
   omega
 
+/-- **Fork configurations.** `frames_never_mint`, `frames_conserve_partial`, `tx_conserves_partial`, `tx_never_mints`,
+    `block_conserves`, … hold for every value of the flags 015, 017, 018, 026, 027 (they are fields of `w.fl`,
+    universally quantified) and need only `p002 = true`: balance writes are journaled. The statement for *all* fork
+    configurations, including heights below Proposal002Block: -/
+def FullStatementNeverMintsAllForks : Prop :=
+  ∀ (code : Code) (jr : Bool) (fuel : Nat) (origin addr : Addr) (v : Int) (s : St),
+    total (evmCallTop code jr fuel origin addr v s).1.bal ≤ total s.bal
+
+/-- …is false of the model and of the code below Proposal002Block (main-net heights < 3 353 000, robin < 2 802 000;
+    known finding `pre002-reverted-selfdestruct-mint`, replayed: corpus/C06/09-pre002-revert.ops). There `AddFT`/`SubFT`
+    write balance slots with `setData`, bypassing the journal, so a revert restores nothing — except that
+    `suicideChange.undo` writes back the balance `Suicide` recorded: contract 4 (balance 5) self-destructs to 9 inside a
+    call from contract 2, which then hits INVALID; after the revert 9 keeps the 5 and 4 has its 5 back. -/
+theorem never_mints_pre002_counterexample : ¬ FullStatementNeverMintsAllForks := by
+  intro h
+  have := h [(2, [.call 4 0, .invalid]), (4, [.suicide 9])] false 10 1 2 0
+    { bal := [(4, 5)], dead := [], fresh := 0, burned := 0 }
+  revert this
+  decide +kernel
+
+/-- The proved restriction: from Proposal002Block on (`jr = true`) no top-level call raises the sum. -/
+theorem never_mints_from_002_partial (code : Code) (fuel : Nat) (origin addr : Addr) (v : Int) (s : St) :
+    total (evmCallTop code true fuel origin addr v s).1.bal ≤ total s.bal :=
+  evmCallTop_total_le code fuel origin addr v s
+
 /-- The sum of all balances never grows inside the EVM, whatever the program. -/
 theorem frames_never_mint (code : Code) (origin : Addr) (fuel : Nat) (self : Addr) (ro : Bool) (sc : Script) (s : St) :
-    total (exec code origin fuel self ro sc s).1.bal ≤ total s.bal :=
+    total (exec code origin true fuel self ro sc s).1.bal ≤ total s.bal :=
   exec_total_le code origin fuel self ro sc s
 
 /-- SELFDESTRUCT: to another account it moves the balance, to itself it burns exactly the balance. -/
@@ -278,11 +315,11 @@ theorem selfdestruct_per_invocation (s : St) (d : List Addr) (self ben : Addr) :
 
 /-- driver 7 calls bomb 8 (beneficiary 9) three times, with value on the later calls: 9 receives 0+1+2, nothing is
     duplicated, nothing stays in 8 -/
-example : let r := (exec [(7, [.call 8 0, .call 8 1, .call 8 2]), (8, [.suicide 9])] 1 20 7 false
+example : let r := (exec [(7, [.call 8 0, .call 8 1, .call 8 2]), (8, [.suicide 9])] 1 true 20 7 false
             [.call 8 0, .call 8 1, .call 8 2] { bal := [(7, 5), (8, 4)], dead := [], fresh := 0, burned := 0 }).1
           get r.bal 9 = 7 ∧ get r.bal 8 = 0 ∧ get r.bal 7 = 2 ∧ total r.bal = 9 := by decide
 
-example : (exec [(7, [.call 8 3, .suicide 7])] 1 10 7 false [.call 8 3, .suicide 7]
+example : (exec [(7, [.call 8 3, .suicide 7])] 1 true 10 7 false [.call 8 3, .suicide 7]
             { bal := [(7, 5)], dead := [], fresh := 0, burned := 0 }).1.burned = 2 := by decide
 
 /-! ## 4. Whole transactions -/
@@ -291,7 +328,7 @@ example : (exec [(7, [.call 8 3, .suicide 7])] 1 10 7 false [.call 8 3, .suicide
     appears and nothing vanishes — balances + burned + registry stake + escrow (+ refunds pending in the executor
     context) stay the same. -/
 def FullStatementTxConserves : Prop :=
-  ∀ (fuel : Nat) (w : World) (tx : Tx),
+  ∀ (fuel : Nat) (w : World) (tx : Tx), w.fl.p002 = true →
     wealth (execTx fuel w tx).1.st + escrowTotal (execTx fuel w tx).1.ctx.pending
       = wealth w.st + escrowTotal w.ctx.pending
 
@@ -301,22 +338,22 @@ def FullStatementTxConserves : Prop :=
     stake / refund, OperatorNode — from every state, successful, failed or evicted: the wealth changes only by the
     10 RPG a successful OperatorNode debits and credits to nobody (`nodeFeeBy`) and by the UNSTAKE over-refund
     recorded in `excess`. -/
-theorem tx_conserves_partial (fuel : Nat) (w : World) (tx : Tx) :
+theorem tx_conserves_partial (fuel : Nat) (w : World) (hj : w.fl.p002 = true) (tx : Tx) :
     wealth (execTx fuel w tx).1.st + escrowTotal (execTx fuel w tx).1.ctx.pending
         + nodeFeeBy tx (execTx fuel w tx).2 + w.st.excess
       = wealth w.st + escrowTotal w.ctx.pending + (execTx fuel w tx).1.st.excess := by
-  have h := execTx_mass fuel w tx
+  have h := execTx_mass fuel w hj tx
   unfold wmass mass at h
   unfold wealth
   omega
 
 /-- The two known findings are the only leaks: if the transaction is not a successful OperatorNode and the `excess`
     counter did not move, the full equation holds. -/
-theorem tx_conserves_except_known (fuel : Nat) (w : World) (tx : Tx)
+theorem tx_conserves_except_known (fuel : Nat) (w : World) (hj : w.fl.p002 = true) (tx : Tx)
     (h1 : nodeFeeBy tx (execTx fuel w tx).2 = 0) (h2 : (execTx fuel w tx).1.st.excess = w.st.excess) :
     wealth (execTx fuel w tx).1.st + escrowTotal (execTx fuel w tx).1.ctx.pending
       = wealth w.st + escrowTotal w.ctx.pending := by
-  have hm := tx_conserves_partial fuel w tx
+  have hm := tx_conserves_partial fuel w hj tx
   omega
 
 example : nodeFeeBy (.operator 1 true []) .success = 0 := rfl
@@ -328,7 +365,7 @@ theorem tx_conserves_counterexample : ¬ FullStatementTxConserves := by
   intro h
   have := h 0 { st := { bal := [(1, 20001000000000000000)], dead := [], fresh := 0, burned := 0,
                         reg := [{ id := 7, account := 1, stake := 2000, typ := 1, visible := true }] },
-                code := [], ctx := { gasUsed := none } } (.node 1 99 true)
+                code := [], ctx := { gasUsed := none } } (.node 1 99 true) rfl
   revert this
   decide +kernel
 
@@ -336,24 +373,24 @@ theorem tx_conserves_counterexample : ¬ FullStatementTxConserves := by
     (`nonceOk`), whether the JSON decodes (`jsonOk`) — and the gas bound `fuel` are universally quantified in every
     theorem of this file (they are fields of `t : ContractTx` / an argument). Spelled out: whatever values they take,
     a contract transaction conserves balances + burned, and never raises the sum. -/
-theorem conserves_for_every_oracle_value (fuel : Nat) (w : World) (t : ContractTx)
+theorem conserves_for_every_oracle_value (fuel : Nat) (w : World) (hj : w.fl.p002 = true) (t : ContractTx)
     (gasUsed : Nat) (nonceOk jsonOk : Bool) :
     let t' := { t with gasUsed := gasUsed, nonceOk := nonceOk, jsonOk := jsonOk }
     wealth (execTx fuel w (.contract t')).1.st + w.st.excess
         = wealth w.st + (execTx fuel w (.contract t')).1.st.excess ∧
     total (execTx fuel w (.contract t')).1.st.bal ≤ total w.st.bal := by
   intro t'
-  have h1 := execTx_mass_contract fuel w t'
+  have h1 := execTx_mass_contract fuel w hj t'
   unfold mass at h1
   unfold wealth
-  exact ⟨by omega, execTx_total_le fuel w (.contract t')⟩
+  exact ⟨by omega, execTx_total_le fuel w hj (.contract t')⟩
 
 /-- **The sum of all balances never increases** over any transaction of any type, successful or failed
     (full strength; the two known findings do not touch this clause: one destroys value, the other creates it in the
     escrow, from where it reaches balances only through `after_exact`). -/
-theorem tx_never_mints (fuel : Nat) (w : World) (tx : Tx) :
+theorem tx_never_mints (fuel : Nat) (w : World) (hj : w.fl.p002 = true) (tx : Tx) :
     total (execTx fuel w tx).1.st.bal ≤ total w.st.bal :=
-  execTx_total_le fuel w tx
+  execTx_total_le fuel w hj tx
 
 /-- OperatorNode (`nodeTx = nodeTxWith nodeFee`, `nodeFee` = 10 RPG): a successful one lowers the wealth and the
     sum of balances by exactly the fee (and hands the miner to the new account). -/
@@ -390,10 +427,10 @@ theorem node_fee_is_ten : strToBigInt "10" = .val nodeFee := by decide +kernel
 /-- A whole block at any height (fresh executor context, stale `gasUsed` carried between its transactions, context
     refunds and the block reward `rewards` into the escrow, payout of what is due, commit): the wealth grows by
     exactly the block reward, minus node fees, plus the UNSTAKE over-refund. -/
-theorem block_conserves (fuel : Nat) (w : World) (h : Nat) (txs : List Tx) (rewards : Escrow) :
+theorem block_conserves (fuel : Nat) (w : World) (hj : w.fl.p002 = true) (h : Nat) (txs : List Tx) (rewards : Escrow) :
     wealth (execBlock fuel w h txs rewards).1.st + nodeFeeSum txs (execBlock fuel w h txs rewards).2 + w.st.excess
       = wealth w.st + escrowTotal rewards + (execBlock fuel w h txs rewards).1.st.excess := by
-  have hm := execBlock_mass fuel w h txs rewards
+  have hm := execBlock_mass fuel w hj h txs rewards
   unfold mass at hm
   unfold wealth
   omega
@@ -406,10 +443,10 @@ def escrowAtPayout (fuel : Nat) (w : World) (h : Nat) (txs : List Tx) (rewards :
 
 /-- Over a block the sum of all balances grows by at most the escrow entries that fall due at this height
     (scheduled block rewards and stake refunds). -/
-theorem block_mints_only_due (fuel : Nat) (w : World) (h : Nat) (txs : List Tx) (rewards : Escrow) :
+theorem block_mints_only_due (fuel : Nat) (w : World) (hj : w.fl.p002 = true) (h : Nat) (txs : List Tx) (rewards : Escrow) :
     total (execBlock fuel w h txs rewards).1.st.bal
       ≤ total w.st.bal + ((dueAt (escrowAtPayout fuel w h txs rewards) h).map (·.2)).sum := by
-  have h1 := execTxs_total_le fuel txs { w with ctx := { gasUsed := none, pending := [] }, st := { w.st with height := h } }
+  have h1 := execTxs_total_le fuel txs { w with ctx := { gasUsed := none, pending := [] }, st := { w.st with height := h } } hj
   unfold execBlock escrowAtPayout
   simp only at h1 ⊢
   generalize execTxs fuel _ txs = r at h1 ⊢
@@ -419,11 +456,11 @@ theorem block_mints_only_due (fuel : Nat) (w : World) (h : Nat) (txs : List Tx) 
 /-- **failed_tx_only_gas**. A contract transaction that does not succeed (failed or evicted, at any stage:
     fee, decoding, pre-check, intrinsic gas, EVM error, revert) leaves every balance other than the sender's and
     the fee account's exactly as it was, and the sum unchanged. -/
-theorem failed_tx_only_gas (fuel : Nat) (w : World) (t : ContractTx)
+theorem failed_tx_only_gas (fuel : Nat) (w : World) (hj : w.fl.p002 = true) (t : ContractTx)
     (hf : (execTx fuel w (.contract t)).2 ≠ .success) :
     (∀ a, a ≠ t.src → a ≠ feeAccount → get (execTx fuel w (.contract t)).1.st.bal a = get w.st.bal a) ∧
     total (execTx fuel w (.contract t)).1.st.bal ≤ total w.st.bal :=
-  ⟨fun a h1 h2 => failed_contract_other fuel w t hf a h1 h2, execTx_total_le fuel w (.contract t)⟩
+  ⟨fun a h1 h2 => failed_contract_other fuel w hj t hf a h1 h2, execTx_total_le fuel w hj (.contract t)⟩
 
 /-! ## 5. The two ways the sum may move besides burning -/
 
